@@ -152,6 +152,7 @@ type State struct {
 	aliases      map[string]string  // named constant -> the term it abbreviates
 	lastSent     map[string]Term    // channel term -> value of the last send on this path
 	locals       []string           // references of non-escaping local allocations (invisible to callees)
+	callArgs     map[string][]Value // "<callee>#<site ordinal>" -> arguments of that call on this path
 	callResults  map[string][]Value // "<callee>#<site ordinal>" -> results of that call on this path
 }
 
@@ -169,6 +170,7 @@ func NewState() *State {
 		ctxDoneChans: map[string]Term{},
 		freshObjs:    map[string]bool{},
 		callResults:  map[string][]Value{},
+		callArgs:     map[string][]Value{},
 		lastSent:     map[string]Term{},
 		aliases:      map[string]string{},
 	}
@@ -223,6 +225,10 @@ func (s *State) Clone() *State {
 		c.lastSent[k] = v
 	}
 	c.locals = append([]string(nil), s.locals...)
+	c.callArgs = make(map[string][]Value, len(s.callArgs))
+	for k, v := range s.callArgs {
+		c.callArgs[k] = v
+	}
 	c.callResults = make(map[string][]Value, len(s.callResults))
 	for k, v := range s.callResults {
 		c.callResults[k] = v
